@@ -24,10 +24,18 @@ def persistent_containers(mod_tree: ast.Module) -> dict[str, ast.AST]:
         if isinstance(tg, ast.Name) and getattr(st, "value", None) is not None and _is_container_value(st.value):
             out[tg.id] = st
         if isinstance(st, ast.ClassDef):
+            init = next((f for f in st.body if isinstance(f, ast.FunctionDef) and f.name == "__init__"), None)
+            per_instance = set()
+            if init is not None:
+                for n in ast.walk(init):
+                    tgs = n.targets if isinstance(n, ast.Assign) else ([n.target] if isinstance(n, ast.AnnAssign) and n.value is not None else [])
+                    for t in tgs:
+                        if isinstance(t, ast.Attribute) and isinstance(t.value, ast.Name) and t.value.id == "self":
+                            per_instance.add(t.attr)
             for cs in st.body:
                 tg = cs.targets[0] if isinstance(cs, ast.Assign) else (cs.target if isinstance(cs, ast.AnnAssign) else None)
-                if isinstance(tg, ast.Name) and getattr(cs, "value", None) is not None and _is_container_value(cs.value):
-                    out[f"{st.name}.{tg.id}"] = cs
+                if isinstance(tg, ast.Name) and getattr(cs, "value", None) is not None and _is_container_value(cs.value) and tg.id not in per_instance:
+                    out[f"{st.name}.{tg.id}"] = cs  # a class-level container that __init__ does not replace per instance is shared by all instances
     return out
 
 
